@@ -282,7 +282,25 @@ pub fn run(ctx: &mut Ctx) {
         // ---------------- verbose on: identical bytes on buffer, stream, file (and stdout)
         let mut loud = st0.clone();
         loud.verbose = true;
-        let buf_solver = run_with(&p, &loud, |s| s.print_to_buffer());
+        // one case in three: the solver object that prints into the buffer is not new - it has been solved once
+        // before, silently, with an iteration budget of one or two (ending MaxIterations with figures of its own).
+        // What it then prints, and what it reports, must be what a new solver prints and reports
+        let aged = case % 3 == 1;
+        let buf_solver = run_with(&p, &loud, |s| {
+            if aged {
+                let keep = (s.settings.max_iter, s.settings.verbose);
+                s.settings.verbose = false;
+                s.settings.max_iter = 1 + (case % 2) as u32;
+                s.print_to_sink();
+                let _ = catch(std::panic::AssertUnwindSafe(|| s.solve()));
+                s.settings.max_iter = keep.0;
+                s.settings.verbose = keep.1;
+            }
+            s.print_to_buffer()
+        });
+        if aged {
+            ctx.bump("buffer_solver_had_been_solved_before");
+        }
         let mut buf_solver = match buf_solver {
             Ok(s) => s,
             Err(msg) => {
@@ -390,6 +408,11 @@ pub fn run(ctx: &mut Ctx) {
                                 bad("last_row_vs_info", json!({"column": names[k], "printed": problem::fj(vals[k]), "info": problem::fj(want[k]), "status": status_name(sol.status), "rows": pz.rows.len()}));
                                 break;
                             }
+                        }
+                        // an infeasible end reports no objective at all (NaN), whatever an earlier solve on the
+                        // same object left behind
+                        if is_infeasible_status(sol.status) && !(sol.obj_val.is_nan() && sol.obj_val_dual.is_nan()) {
+                            bad("infeasible_end_reports_an_objective", json!({"obj_val": problem::fj(sol.obj_val), "obj_val_dual": problem::fj(sol.obj_val_dual), "printed_pcost": problem::fj(vals[0]), "status": status_name(sol.status), "solver_had_been_solved_before": aged}));
                         }
                         if !is_infeasible_status(sol.status) && !(print_close(vals[0], sol.obj_val, 4) && print_close(vals[1], sol.obj_val_dual, 4) && print_close(vals[3], sol.r_prim, 2) && print_close(vals[4], sol.r_dual, 2)) {
                             bad("last_row_vs_solution", json!({"printed": vals.iter().map(|v| problem::fj(*v)).collect::<Vec<_>>(), "obj_val": problem::fj(sol.obj_val), "obj_val_dual": problem::fj(sol.obj_val_dual), "r_prim": problem::fj(sol.r_prim), "r_dual": problem::fj(sol.r_dual), "status": status_name(sol.status)}));
